@@ -634,18 +634,27 @@ def assignments(op, vals, build, rng, tier, pins, todo_sigs):
         oi = sorted(G.OPS).index(op)
         if (oi % len(G.BUILDS)) != bi:
             chosen = chosen[(oi + bi) % 4::4]
-    nmix = (3 if o.level == 'view' else 6) if tier == 'quick' else 10
+    if tier != 'quick' and o.level == 'view':
+        # the array-kind diagonal once per op and build; later requests only get mixed draws + the signature sweep below
+        if todo_sigs.get(('diag-done', build, op)):
+            chosen = []
+        todo_sigs[('diag-done', build, op)] = True
+    nmix = (3 if o.level == 'view' else 6) if tier == 'quick' else (5 if o.level == 'view' else 10)
+    n_diag = len(chosen)
     if len(allk) > len(chosen):
         chosen += rng.sample(allk, min(nmix, len(allk)))
+    n_fixed = len(chosen)
+    if len(allk) > len(chosen):
+        pass
     out = []
     seen = set()
-    for k in chosen:
+    for j, k in enumerate(chosen):
         for mode in ('rt', 'cx'):
             if mode == 'cx' and not G.cx_ok(op, vals, k):
                 continue
             s = G.sig(op, k, mode)
             if s in sup and (k, mode) not in seen:
-                seen.add((k, mode)); out.append((k, mode))
+                seen.add((k, mode)); out.append((k, mode, j >= n_diag))
     if tier != 'quick':
         # cover every pinned signature at least once over the run
         pend = todo_sigs.setdefault((build, op), sorted(supported(pins, build, op)))
@@ -658,7 +667,7 @@ def assignments(op, vals, build, rng, tier, pins, todo_sigs):
                     break
         for km in take:
             if km not in seen:
-                seen.add(km); out.append(km)
+                seen.add(km); out.append((km[0], km[1], True))
     return out
 
 
@@ -684,18 +693,23 @@ def plan(tier):
         cases = []
         for op, vals, rid in reqs:
             rrng = random.Random(seed * 104729 + 31 * rid + 5)      # same draw for the same request in every build
-            for kinds, mode in assignments(op, vals, build, rrng, tier, pins, todo):
-                cases.append(G.KCase(op, vals, kinds, mode, salt=rid % 6, rid=rid))
+            for kinds, mode, seeded in assignments(op, vals, build, rrng, tier, pins, todo):
+                cases.append((seeded, G.KCase(op, vals, kinds, mode, salt=rid % 6, rid=rid)))
+        # seed-independent cases (the kind diagonal) first: their TUs are identical for every VERIF_SEED and stay cached
+        fixed_part = [c for sd, c in cases if not sd]
+        seeded_part = [c for sd, c in cases if sd]
+        cases = fixed_part + ['flush'] + seeded_part
         # chunk by compile weight (a view case instantiates ~6x more than an index case)
         chunk, w, n = [], 0, 0
         for c in cases + [None]:
-            cw = 0 if c is None else (VIEW_WEIGHT if G.OPS[c.op].level == 'view' else 1)
-            if c is None or (chunk and w + cw > CASES_PER_TU):
+            flush = c is None or c == 'flush'
+            cw = 0 if flush else (VIEW_WEIGHT if G.OPS[c.op].level == 'view' else 1)
+            if flush or (chunk and w + cw > CASES_PER_TU):
                 if chunk:
                     tus['k9_%s_%s_%02d' % (tier[0], build, n)] = (build, chunk)
                     n += 1
                 chunk, w = [], 0
-            if c is not None:
+            if not flush:
                 chunk.append(c); w += cw
     _plan_cache[key] = (reqs, tus)
     return _plan_cache[key]
